@@ -326,18 +326,27 @@ class Fn:
         return out
 
     def switch_edges(self, bi):
-        """for a call block whose bool result is switched on next: (false_succ, true_succ)"""
+        """for a call block whose bool result is switched on (directly, or after being kept in a local):
+        (false_succ, true_succ); self.last_switch_block is the block of that switch"""
         t = self.blocks[bi]["term"]
-        nb = t["t"]
-        sw = self.blocks[nb]["term"]
-        if sw["k"] != "switch":
+        dest = t["dest"]["local"]
+        cands = []
+        for sb, b in enumerate(self.blocks):
+            sw = b["term"]
+            if sw["k"] != "switch" or not self.dominates(bi, sb) or sw["d"]["k"] not in ("copy", "move"):
+                continue
+            loc = sw["d"]["p"]["local"]
+            rp = self._root_place_p(sw["d"]["p"])
+            if loc == dest or (rp is not None and rp[0] == dest and not rp[1]):
+                cands.append(sb)
+        if not cands:
             return None
-        d = sw["d"]
-        if d["k"] not in ("copy", "move") or d["p"]["local"] != t["dest"]["local"]:
-            return None
+        sb = min(cands, key=lambda x: len(self.dominators()[x]))
+        sw = self.blocks[sb]["term"]
         f = [x[1] for x in sw["ts"] if x[0] == 0]
         if len(f) != 1:
             return None
+        self.last_switch_block = sb
         return f[0], sw["else"]
 
 
